@@ -11,7 +11,13 @@ def run(ctx):
                      'loop proved (capacity >= 1); precondition is only the ring buffer representation invariant, i.e. any '
                      'capacity, pre-fill and start offset')
     run_unit(ctx, 'buffered', search_crate='signal')
+    # the unit above ASSUMES the contracts of the Bounded queue operations it calls; they are discharged on the real bodies by
+    # unit ring_buffer, which is therefore run here as well (restricted to those operations), so that a change inside the ring
+    # buffer that breaks this property is reported by this check too
+    run_unit(ctx, 'ring_buffer', only_labels=['Bounded::push', 'Bounded::pop', 'Bounded::len', 'Bounded::max_len',
+                                             'Bounded::is_empty', 'Bounded::is_full'])
 
 
 def prepare_replay(rec):
     build_search('signal')
+    build_search('ring_buffer')
